@@ -31,3 +31,14 @@ func SetRandForVerif(r *rand.Rand) *rand.Rand {
 	localRand = r
 	return old
 }
+
+// OpenDBIForVerif opens a backend with the repository's own drivers.
+func OpenDBIForVerif(name, driver string) (DBI, error) {
+	switch driver {
+	case "cdb":
+		return openCDB(name)
+	case "rocksdb":
+		return openRDB(name)
+	}
+	return nil, ErrValidationKeyNotFound
+}
